@@ -567,6 +567,36 @@ def run_mid(case):
             if float(fr["attrs"]["time"]) != float(ref[lab]["attrs"]["time"]):
                 res.violate("frame-time", **sig, detail={"label": lab})
                 break
+        # bookkeeping: one per-step record for every completed update and none for the update that was stopped
+        nrec, bad_dt, cols_extra = 0, False, []
+        for fr in frames:
+            rec = fr["records"]
+            if rec is None:
+                continue
+            dts = np.atleast_1d(np.asarray(rec["dt"], float)).ravel()
+            valid = dts > 0
+            nrec += int(valid.sum())
+            bad_dt = bad_dt or bool(np.any(dts[valid] != 2.0**-5))
+            for c, v in rec.items():
+                v = np.asarray(v, float)
+                if c == "dt" or v.size == 0:
+                    continue
+                v2 = v.reshape(-1, len(dts)) if v.ndim != 2 else v
+                if v2.shape[-1] == len(dts) and np.any(v2[:, ~valid] != 0):
+                    cols_extra.append(c)
+        if labels and (nrec != labels[-1] or bad_dt or cols_extra):
+            res.violate("records-do-not-match-completed-steps", n_obs_minus_exp=nrec - labels[-1], **sig,
+                        detail={"case": case, "point": pt, "records": nrec, "completed": labels[-1], "columns_with_entries_beyond_dt": cols_extra})
+        if sol is not None:
+            try:
+                nd = len(np.atleast_1d(sol.dynamics.dt)) if sol.dynamics is not None else 0
+                if labels and nd != labels[-1]:
+                    res.violate("partial-solution-records-do-not-match-completed-steps", n_obs_minus_exp=nd - labels[-1], **sig, detail={"case": case, "point": pt})
+                tlast = float(np.atleast_1d(sol.times)[-1])
+                if labels and abs(tlast - float(frames[-1]["attrs"]["time"])) > 1e-12:
+                    res.violate("partial-solution-times-overshoot", **sig, detail={"case": case, "point": pt, "last_time": tlast, "frame_time": float(frames[-1]["attrs"]["time"])})
+            except Exception as e:  # noqa: BLE001
+                res.violate("partial-solution-unusable", exc=type(e).__name__, memory_only=False, where="records", **sig)
         if sol is not None:
             try:
                 lab = labels[-1]
